@@ -946,7 +946,9 @@ impl<'de, R: Read<'de>> Deserializer<R> {
                 return Ok(ParserNumber::U64(unsigned));
             }
         } else {
-            if let Ok(signed) = buf.parse() {
+            // Keep `-0` as written: as without arbitrary_precision, it is
+            // the float negative zero rather than the integer 0.
+            if let Ok(signed @ i64::MIN..=-1) = buf.parse() {
                 return Ok(ParserNumber::I64(signed));
             }
         }
